@@ -464,7 +464,16 @@ func Prepare(ws *genrun.Workspace, o Opts) (*Prepared, error) {
 		}
 		c.API = api
 		c.InDriver = true
-		dp := genrun.DriverPkg{Key: c.Unit.ID, Import: prefix + gschema.Pkg, API: api}
+		// the generic registry assumes zero-argument constructors: builder
+		// constructors (which may take arguments) are registered by regBuilder only
+		regAPI := api
+		regAPI.Funcs = nil
+		for _, f := range api.Funcs {
+			if !(strings.HasPrefix(f, "New") && strings.HasSuffix(f, "Builder")) {
+				regAPI.Funcs = append(regAPI.Funcs, f)
+			}
+		}
+		dp := genrun.DriverPkg{Key: c.Unit.ID, Import: prefix + gschema.Pkg, API: regAPI}
 		var extra strings.Builder
 		for _, b := range c.Go.Ctx.Builders {
 			if b.Package != gschema.Pkg {
